@@ -14,6 +14,11 @@ from hypothesis import strategies as st
 from tqv import gen, ref
 from tqv.core import SubCheck, Violation, req
 
+# caller-owned arrays handed to the library must come back unchanged (see tqv/purity.py)
+from tqv.purity import install as _install_purity  # noqa: E402
+
+_install_purity('toqito.perms')
+
 PROPERTY = "C01"
 RULE = (
     "Cases are drawn by Hypothesis: number of subsystems n in 1..5, row and column local dimensions drawn against a "
